@@ -9,7 +9,7 @@ import networkx as nx
 from ..cfg import ENTRY, EXIT, RAISE, reaching_defs
 from ..common import calls_named, dotted, kw, loc, norm, stmt_of
 from ..model import AnalysisError, ClassInfo, FunctionInfo, own_nodes
-from .util import anchor_func, assigned_name, build_cfg, facts, is_zero_expr, switch_assumptions
+from .util import anchor_func, assigned_name, buffer_fill, build_cfg, facts, is_zero_expr, switch_assumptions
 from . import opcontract
 
 COLLECT = "mygrad._utils.collect_all_tensors_and_clear_grads"
@@ -332,6 +332,13 @@ def _derives_from(cfg, name, at, origin, seen) -> bool:
         seen.add(d)
         st = cfg.stmt[d]
         rhs = getattr(st, "value", None)
+        if isinstance(rhs, ast.Name) and rhs.id != name:
+            # name = buf, where buf was allocated and then filled from `name` (np.copyto(buf, name) / buf[...] = name): a re-laid-out copy
+            bf = buffer_fill(cfg, rhs.id, d)
+            if bf is not None and isinstance(bf[3], ast.Name) and bf[3].id == name:
+                if not _derives_from(cfg, name, bf[2], origin, seen):
+                    return False
+                continue
         if rhs is None or name not in {x.id for x in ast.walk(rhs) if isinstance(x, ast.Name)}:
             return False
         if not _derives_from(cfg, name, d, origin, seen):
